@@ -141,11 +141,11 @@ def run_c12(tier, seed):
         seq = dict(props_seq.LAST)
         # two trees from one call site mutated alternately (pairs mode)
         pair_cases = []
-        for g_i, a in enumerate(gen.gen_seq_cases(seed + 77, 12 if tier == "quick" else 60, shadow.TYPE_NAMES, [4, 8, 16])):
+        for g_i, a in enumerate(gen.gen_growshrink_cases(seed + 77, 12 if tier == "quick" else 60, shadow.TYPE_NAMES, orders=(4, 8))):
             # two trees from one call site mutated alternately + a third constructed after they have merged/discarded nodes
             U = len(a["keys"]) if a["keys"] else 40
             a["id"] = "p%da" % g_i
-            b = dict(a, id="p%db" % g_i, ops=gen.gen_ops(rng, a["type"], a["order"], max(U, 4), len(a["ops"]), True))
+            b = dict(a, id="p%db" % g_i, ops=gen.gen_ops(rng, a["type"], a["order"], max(U, 4), min(len(a["ops"]), 300), True))
             late = dict(a, id="p%dc" % g_i, ops=["C 0.0 -1 0", "S 0.0"] + gen.gen_ops(rng, a["type"], a["order"], max(U, 4), 30, True) + ["C 0.0 -1 0"])
             pair_cases += [a, b, late]
         gp, mp = seqcheck.run_cases(vh, pair_cases, tmp, tag="pairs", mode="pairs")
